@@ -151,6 +151,17 @@ class VNestWrite(_FloatOp):
         return FloatDataType(data.data)
 
 
+class VSleep(_FloatOp):
+    """Passes the data through after sleeping `seconds` (a node that takes real time)."""
+
+    def _process_logic(self, data, seconds: float = 0.0):
+        import time as _t
+
+        _log("VSleep", seconds=seconds)
+        _t.sleep(seconds)
+        return FloatDataType(data.data)
+
+
 class VItemSum(_FloatOp):
     """data + sum(items): consumes whatever iterable it is given (a list, a tuple, a one-shot iterator)."""
 
